@@ -79,14 +79,14 @@ type Cell struct {
 
 // Concrete records the concrete inputs of one executed step (for replay files).
 type Concrete struct {
-	Host    string            `json:"host"`
-	Method  string            `json:"method"`
-	Target  string            `json:"target"`
-	Header  map[string]string `json:"header,omitempty"`
-	Cookie  string            `json:"cookie,omitempty"`
-	Session interface{}       `json:"session,omitempty"`
+	Host    string                  `json:"host"`
+	Method  string                  `json:"method"`
+	Target  string                  `json:"target"`
+	Header  map[string]string       `json:"header,omitempty"`
+	Cookie  string                  `json:"cookie,omitempty"`
+	Session interface{}             `json:"session,omitempty"`
 	Script  map[string]world.Answer `json:"script,omitempty"`
-	Note    string            `json:"note,omitempty"`
+	Note    string                  `json:"note,omitempty"`
 }
 
 // World is one fixture: proxy + authenticator + one backend per upstream.
@@ -97,11 +97,13 @@ type World struct {
 }
 
 const (
-	hostEmail = "email.sso.test"
-	hostGroup = "group.sso.test"
-	hostBoth  = "both.sso.test"
-	hostOther = "other.sso.test"
-	slug      = "idp"
+	hostEmail     = "email.sso.test"
+	hostGroup     = "group.sso.test"
+	hostBoth      = "both.sso.test"
+	hostOther     = "other.sso.test"
+	hostGroup2    = "group2.sso.test" // a second group-only upstream with a different group (concurrent-pairs leg)
+	allowedGroup2 = "ops"
+	slug          = "idp"
 	allowedDomain = "allowed.test"
 	allowedGroup  = "eng"
 )
@@ -128,7 +130,7 @@ func NewWorld() (*World, error) {
 	w := &World{Backs: map[string]*world.Backend{}}
 	w.FA = world.NewFakeAuth("proxy-client-id", "proxy-client-secret")
 	var y strings.Builder
-	for _, h := range []string{hostEmail, hostGroup, hostBoth, hostOther} {
+	for _, h := range []string{hostEmail, hostGroup, hostBoth, hostOther, hostGroup2} {
 		b := world.NewBackend(h)
 		w.Backs[h] = b
 		fmt.Fprintf(&y, "- service: %s\n  default:\n    from: %s\n    to: %s\n    options:%s\n", strings.Split(h, ".")[0], h, b.Addr(), skipRegexYAML)
@@ -137,6 +139,8 @@ func NewWorld() (*World, error) {
 			fmt.Fprintf(&y, "      allowed_email_domains:\n        - %s\n", allowedDomain)
 		case hostGroup:
 			fmt.Fprintf(&y, "      allowed_groups:\n        - %s\n", allowedGroup)
+		case hostGroup2:
+			fmt.Fprintf(&y, "      allowed_groups:\n        - %s\n", allowedGroup2)
 		case hostBoth:
 			fmt.Fprintf(&y, "      allowed_email_domains:\n        - %s\n      allowed_groups:\n        - %s\n", allowedDomain, allowedGroup)
 		}
